@@ -106,7 +106,25 @@ pub fn select(profile: &str, seed: u64, count: usize, max_states: usize) -> (Vec
                 continue;
             }
         }
+        // look-alike enums in one crate (= one proc-macro process): every fifth definition with three or more variants
+        // is followed by the same definition with its variants declared in another order - the same set of
+        // (pattern, priority) pairs, other leaf numbers, so state the code generator keeps between derives shows
+        let look_alike = if (profile == "callbacks" || profile == "mixed") && out.len() % 5 == 2 && def.variants.len() >= 3 && def.raw_variants.is_empty() && out.len() + 1 < count {
+            let mut d2 = def.rotated_variants(1 + out.len() % 2);
+            d2.name = format!("D{}", out.len() + 1);
+            d2.family = format!("{}+lookalike", def.family);
+            let a2 = analyze::run_generate(&d2);
+            match (a2.outcome == Outcome::Accepted, a2.graph) {
+                (true, Some(g2)) if g2.leaves.len() == d2.pats.len() && analyze::build_reference(&d2).is_ok() => Some(CorpusDef { def: d2, graph: g2 }),
+                _ => None,
+            }
+        } else {
+            None
+        };
         out.push(CorpusDef { def, graph: g });
+        if let Some(l) = look_alike {
+            out.push(l);
+        }
     }
     (out, tried)
 }
@@ -232,7 +250,8 @@ pub fn write(dir: &Path, profile: &str, seed: u64, defs: &[CorpusDef], shards: u
         let mut table = String::from("pub static TABLE: &[vrt::Entry] = &[\n");
         for (i, cd) in all.iter().enumerate() {
             // twins stay in the same shard as their original
-            let owner = if profile == "twins" { i / 2 } else { i };
+            // ... and so do look-alikes (same crate = same proc-macro process, expanded right after the original)
+            let owner = if profile == "twins" { i / 2 } else if cd.def.family.ends_with("+lookalike") && i > 0 { i - 1 } else { i };
             if owner % shards != sh {
                 continue;
             }
